@@ -1,0 +1,244 @@
+//! Verification hooks. Compiled only with the `verif` cargo feature, which is off by default.
+//!
+//! Nothing in here changes behaviour: the module exposes crate-internal types to an external
+//! monitoring harness, builds the real JSON-RPC method table over a database directory without
+//! the HTTP layer, and forwards lock and persistent-write events to observers the harness may
+//! install. Without an installed observer every hook is a no-op.
+
+use std::error::Error;
+use std::path::Path;
+use std::sync::{Arc, RwLock};
+
+pub use crate::api::types::{decode_bytes_from_inscription_data, select_bytes};
+pub use crate::api::INDEXER_METHODS;
+pub use crate::db::types::*;
+pub use crate::db::{
+    BlockCachedDatabase, BlockDatabase, BlockHistoryCache, BlockHistoryCacheData,
+    Brc20ProgDatabase,
+};
+pub use crate::engine::{
+    bip322_verify_precompile, btc_tx_details_precompile, get_evm_address_from_pkscript,
+    get_gas_limit, get_inscription_byte_len, get_locked_pkscript_precompile,
+    get_op_return_tx_id_precompile, last_sat_location_precompile, BRC20ProgEngine,
+    PrecompileCall,
+};
+pub use crate::global::database::{validate_config_database, ConfigDatabase};
+pub use crate::global::{
+    Brc20ProgConfig, CALLDATA_LIMIT, CARGO_PKG_VERSION, CONFIG, GAS_PER_BYTE, INDEXER_ADDRESS,
+    MAX_FUTURE_TRANSACTION_BLOCKS, MAX_FUTURE_TRANSACTION_NONCES, MAX_REORG_HISTORY_SIZE,
+};
+use crate::global::{DB_VERSION, PROTOCOL_VERSION};
+use crate::types::{Base64Bytes, RawBytes};
+
+/// Writes the process-wide configuration, exactly as `start()` does first.
+pub fn set_config(config: Brc20ProgConfig) {
+    CONFIG.write_fn_unchecked(|value| {
+        *value = config.clone();
+    });
+}
+
+/// Opens the database under `db_path`, wraps it in an engine and returns the real method table.
+pub fn methods(db_path: &Path) -> Result<jsonrpsee::Methods, Box<dyn Error>> {
+    let engine = BRC20ProgEngine::new(Brc20ProgDatabase::new(db_path)?);
+    Ok(crate::server::verif_methods(engine))
+}
+
+/// (protocol version, database version, crate version)
+pub fn versions() -> (u32, u32, String) {
+    (*PROTOCOL_VERSION, *DB_VERSION, CARGO_PKG_VERSION.clone())
+}
+
+/// Server-side decoding of a base64 payload field.
+pub fn base64_value(b: &Base64Bytes) -> Option<alloy::primitives::Bytes> {
+    b.value()
+}
+
+/// Server-side decoding of a hex payload field.
+pub fn raw_value(b: &RawBytes) -> Option<alloy::primitives::Bytes> {
+    b.value()
+}
+
+// ---------------------------------------------------------------------------------------------
+// Persistent-write failpoints
+// ---------------------------------------------------------------------------------------------
+
+/// One persistent write that is about to be issued.
+pub struct WriteEvent<'a> {
+    pub site: &'static str,
+    pub db_path: &'a Path,
+    pub op: &'static str,
+    pub key: &'a [u8],
+}
+
+type WriteObserver = Arc<dyn Fn(&WriteEvent<'_>) + Send + Sync>;
+
+static WRITE_OBSERVER: RwLock<Option<WriteObserver>> = RwLock::new(None);
+
+/// Installs (or removes) the observer called immediately before every RocksDB put/delete/flush
+/// issued by commit, reorg and the write-through configuration table.
+pub fn set_write_observer(observer: Option<WriteObserver>) {
+    *WRITE_OBSERVER.write().unwrap_or_else(|e| e.into_inner()) = observer;
+}
+
+pub(crate) fn failpoint(site: &'static str, db_path: &Path, op: &'static str, key: &[u8]) {
+    let observer = WRITE_OBSERVER
+        .read()
+        .unwrap_or_else(|e| e.into_inner())
+        .clone();
+    if let Some(observer) = observer {
+        observer(&WriteEvent {
+            site,
+            db_path,
+            op,
+            key,
+        });
+    }
+}
+
+// ---------------------------------------------------------------------------------------------
+// Lock events
+// ---------------------------------------------------------------------------------------------
+
+pub mod lock_hooks {
+    use std::ops::Deref;
+    use std::panic::Location;
+    use std::sync::{Arc, RwLock, RwLockReadGuard};
+    use std::thread::ThreadId;
+
+    #[derive(Clone, Copy, Debug, PartialEq, Eq, Hash)]
+    pub enum Mode {
+        Read,
+        Write,
+    }
+
+    #[derive(Clone, Copy, Debug, PartialEq, Eq, Hash)]
+    pub enum Phase {
+        Attempt,
+        Acquired,
+        Released,
+    }
+
+    /// Identity of one `SharedData` instance plus the call site touching it.
+    #[derive(Clone, Copy, Debug)]
+    pub struct LockId {
+        pub addr: usize,
+        pub type_name: &'static str,
+        pub site: &'static Location<'static>,
+    }
+
+    impl LockId {
+        pub fn of<T>(lock: &T, site: &'static Location<'static>) -> Self {
+            Self {
+                addr: lock as *const T as usize,
+                type_name: std::any::type_name::<T>(),
+                site,
+            }
+        }
+    }
+
+    #[derive(Clone, Copy, Debug)]
+    pub struct LockEvent {
+        pub phase: Phase,
+        pub mode: Mode,
+        pub lock: LockId,
+        pub thread: ThreadId,
+    }
+
+    type LockObserver = Arc<dyn Fn(&LockEvent) + Send + Sync>;
+
+    static LOCK_OBSERVER: RwLock<Option<LockObserver>> = RwLock::new(None);
+
+    /// Installs (or removes) the lock observer. It may block inside an `Attempt` event, which
+    /// delays the acquisition (used to force schedules).
+    pub fn set_lock_observer(observer: Option<LockObserver>) {
+        *LOCK_OBSERVER.write().unwrap_or_else(|e| e.into_inner()) = observer;
+    }
+
+    fn emit(phase: Phase, mode: Mode, lock: &LockId) {
+        let observer = LOCK_OBSERVER
+            .read()
+            .unwrap_or_else(|e| e.into_inner())
+            .clone();
+        if let Some(observer) = observer {
+            observer(&LockEvent {
+                phase,
+                mode,
+                lock: *lock,
+                thread: std::thread::current().id(),
+            });
+        }
+    }
+
+    pub fn attempt(lock: &LockId, mode: Mode) {
+        emit(Phase::Attempt, mode, lock);
+    }
+
+    pub fn acquired(lock: &LockId, mode: Mode) {
+        emit(Phase::Acquired, mode, lock);
+    }
+
+    pub fn released(lock: &LockId, mode: Mode) {
+        emit(Phase::Released, mode, lock);
+    }
+
+    /// Closure-scoped acquisition (`read_fn`, `write_fn`, `write_fn_unchecked`).
+    pub struct Scope {
+        lock: LockId,
+        mode: Mode,
+        acquired: std::cell::Cell<bool>,
+    }
+
+    impl Scope {
+        pub fn enter(lock: LockId, mode: Mode) -> Self {
+            attempt(&lock, mode);
+            Self {
+                lock,
+                mode,
+                acquired: std::cell::Cell::new(false),
+            }
+        }
+
+        pub fn acquired(&self) {
+            self.acquired.set(true);
+            acquired(&self.lock, self.mode);
+        }
+    }
+
+    impl Drop for Scope {
+        fn drop(&mut self) {
+            if self.acquired.get() {
+                released(&self.lock, self.mode);
+            }
+        }
+    }
+
+    /// Read guard that reports its release.
+    pub struct ReadGuard<'a, T> {
+        guard: Option<RwLockReadGuard<'a, T>>,
+        lock: LockId,
+    }
+
+    impl<'a, T> ReadGuard<'a, T> {
+        pub fn new(guard: RwLockReadGuard<'a, T>, lock: LockId) -> Self {
+            Self {
+                guard: Some(guard),
+                lock,
+            }
+        }
+    }
+
+    impl<'a, T> Deref for ReadGuard<'a, T> {
+        type Target = T;
+
+        fn deref(&self) -> &T {
+            self.guard.as_ref().expect("guard is present until drop")
+        }
+    }
+
+    impl<'a, T> Drop for ReadGuard<'a, T> {
+        fn drop(&mut self) {
+            drop(self.guard.take());
+            released(&self.lock, Mode::Read);
+        }
+    }
+}
